@@ -216,6 +216,10 @@ RT = {'kind': 'kani', 'crate': 'runtime', 'repo_crates': ['truc_runtime'], 'flag
       'assumptions': ['catch_unwind is stubbed by "call the closure, wrap in Ok" (the Kani compiler crashes on the real one and Kani '
                       'does not unwind): the panic arm of try_convert_vec_in_place is unreachable in these harnesses']}
 RT_BOUND = 'BOUNDED: vector length <= 4 (<= 3 for boxed, large and over-aligned elements); element families: u32->i32, drop-counted 1-byte tokens, Box-owning values, (), [u64;4]->[i64;4], repr(align(16)) pair'
+def rt_n(tier):
+    return {'VERIF_CONVERT_N': '6' if tier == 'thorough' else '4'}
+
+
 K_C08 = dict(RT, name='kani-convert-c08', harnesses=['c08_'], bounded=RT_BOUND, min_harnesses=7,
              functions=['truc_runtime/src/convert.rs try_convert_vec_in_place', 'truc_runtime/src/convert.rs convert_vec_in_place'])
 K_C09 = dict(RT, name='kani-convert-c09', harnesses=['c09_'], bounded=RT_BOUND, min_harnesses=6,
@@ -235,7 +239,7 @@ K_DATA = dict(RT, name='kani-data-primitives', harnesses=['data::'], flags=[], m
 
 PROPERTIES['C08'] = {
     'level': 'model_checking',
-    'units': lambda tier: [K_C08],
+    'units': lambda tier: [dict(K_C08, env=rt_n(tier), bounded=RT_BOUND.replace('<= 4 (<= 3', '<= %s (<= %d' % (rt_n(tier)['VERIF_CONVERT_N'], int(rt_n(tier)['VERIF_CONVERT_N']) - 1)))],
     'explanation': 'Contract of try_convert_vec_in_place / convert_vec_in_place checked by Kani on the real function with a specification '
                    'converter (asserts: called once per element, in order, with the most recent output; may modify it) and symbolic '
                    'keep/abandon/modify pattern: result = produced values in order, same allocation, same capacity, no leak.',
@@ -243,7 +247,7 @@ PROPERTIES['C08'] = {
 }
 PROPERTIES['C09'] = {
     'level': 'model_checking',
-    'units': lambda tier: [K_C09],
+    'units': lambda tier: [dict(K_C09, env=rt_n(tier), bounded=RT_BOUND.replace('<= 4 (<= 3', '<= %s (<= %d' % (rt_n(tier)['VERIF_CONVERT_N'], int(rt_n(tier)['VERIF_CONVERT_N']) - 1)))],
     'explanation': 'Error-return arm: failure at a symbolic position after a symbolic keep/abandon/modify prefix; every input and every '
                    'produced output dropped exactly once (ghost drop counters), converter not called again, same error value, allocation '
                    'released (CBMC memory-leak check).',
